@@ -33,3 +33,5 @@
 (define-fun arrAllocated ((a (Array Int Bool)) (r Int)) Bool (select a r))
 ;@heap arrAllocated A_E_Val
 (define-fun i2f ((i Int)) F64 ((_ to_fp 11 53) RNE (to_real i)))
+(define-fun mapAllocated ((a (Array Int Bool)) (r Int)) Bool (select a r))
+;@heap mapAllocated A_M_Str_Val
